@@ -266,7 +266,12 @@ class Fn:
         j = self.ipdom(switch_bb)
         if arm_start == j:
             return set()
-        return self.reach_from([arm_start], avoid={j})
+        if j != -1:
+            return self.reach_from([arm_start], avoid={j})
+        # no join (arms return / continue an enclosing loop / diverge): the arm body is what the
+        # arm's first block dominates
+        dom = self.dominators()
+        return {b for b in self.reachable_blocks() if arm_start in dom.get(b, ())}
 
     def dominates(self, a, b):
         d = self.dominators()
@@ -288,6 +293,8 @@ class Fn:
     def assigns(self):
         """yield (bb, idx, place, rvalue, span)"""
         for i, b in enumerate(self.blocks):
+            if b["cleanup"]:
+                continue
             for j, s in enumerate(b["stmts"]):
                 if s["s"] == "assign":
                     yield i, j, s["p"], s["rv"], s["sp"]
